@@ -49,6 +49,7 @@ def run(ctx):
   who_may_call(ctx, rel, ab)
   frame(ctx, 'quantize_note_sequence', rel, relative=True)
   frame(ctx, 'quantize_note_sequence_absolute', ab, relative=False)
+  stale_total(ctx)
   rounding(ctx, mi)
   call_sites(ctx)
   pairing(ctx)
@@ -335,6 +336,19 @@ def _copy_name(fi):
         if isinstance(t, ast.Attribute) and isinstance(t.value, ast.Attribute) and t.value.attr == 'quantization_info' and isinstance(t.value.value, ast.Name):
           n.add(t.value.value.id)
   return n.pop() if len(n) == 1 else None
+
+
+def stale_total(ctx, rule='PAIR/running-maximum'):
+  """Location-independent: the extension of total_quantized_steps in _quantize_notes is a running maximum; comparing each note
+  end with a snapshot of the field taken before the loop is not (see astutil.stale_running_maximum)."""
+  fi = ctx.func(SL + ':_quantize_notes')
+  stale = U.stale_running_maximum(fi.node)
+  for st, name, snap in stale:
+    ctx.ob(rule, fi, st, False, '%s is guarded by a comparison with %s, which was read from the field before the loop (%s) and is not updated in it: a later note that ends '
+           'earlier than a previous one but after the initial value lowers the total below the earlier note\'s end' % (norm_text(st), name, norm_text(snap)),
+           construct='total_quantized_steps is a running maximum over the note ends', definite=True)
+  if not stale:
+    ctx.ob(rule, fi, fi.node, True, 'no field is raised against a stale snapshot of itself', construct='total_quantized_steps is a running maximum over the note ends', definite=True)
 
 
 def total_order(ctx, rule):
